@@ -134,6 +134,18 @@ pub mod io {
         *ABORT_HOOK.lock().unwrap() = Some(hook);
     }
 
+    static REVERSE_COMPLETIONS: AtomicBool = AtomicBool::new(false);
+
+    /// "Adversarial device": an I/O worker holds back the completions of a burst of operations
+    /// and delivers them newest first once none of its operations is in flight any more.
+    pub fn set_reverse_completions(on: bool) {
+        REVERSE_COMPLETIONS.store(on, Ordering::SeqCst);
+    }
+
+    pub(crate) fn reverse_completions() -> bool {
+        REVERSE_COMPLETIONS.load(Ordering::Relaxed)
+    }
+
     /// "Slow device": every page write performed by an I/O worker is followed by a pause of
     /// `micros` before the worker delivers its completion and takes the next command, so that a
     /// queue of submitted writes drains over a known span of time. 0 switches it off.
